@@ -24,8 +24,10 @@ func (p *Player) handleKeepAlivePacket(packet pk.Packet) error {
 
 	// Response
 	err := p.c.Conn.WritePacket(pk.Packet{
-		ID:   int32(packetid.ServerboundKeepAlive),
-		Data: packet.Data,
+		ID: int32(packetid.ServerboundKeepAlive),
+		// a copy: the received buffer goes back to the connection's pool when this handler returns,
+		// long before the send queue has written the answer
+		Data: append([]byte(nil), packet.Data...),
 	})
 	if err != nil {
 		return Error{err}
